@@ -519,7 +519,7 @@ func (g *generator) walkObject(schema *schemaparser.Schema) (ast.Type, error) {
 			return ast.Type{}, err
 		}
 
-		return ast.NewMap(ast.String(), valueType), nil
+		return ast.NewMap(ast.String(), valueType, ast.Default(unwrapJSONNumber(schema.Default))), nil
 	}
 
 	// TODO: finish implementation
